@@ -318,4 +318,87 @@ theorem aligned_runGens {β μ} (gs : List (Generation β μ)) : ∀ (s : SegIdx
     simpa [SegIdx.runGens, ackedOf, List.append_assoc] using this
 
 
+
+/-! ### segment files: RecordBatch framing and the k ↔ k pairing at byte level -/
+
+
+/-- a complete valid RecordBatch as it sits in a segment file, decoding to `b` -/
+def BatchOK (crc : Bytes → Nat) (raw : Bytes) (b : Batch) : Prop :=
+  raw.length = 12 + beNat (slice raw 8 4) ∧ beNat (slice raw 8 4) ≤ 1073741824 ∧ decodeBatch crc raw = some b
+
+def metaAt (crc : Bytes → Nat) (idx : Bytes) (k : Nat) : IdxMeta :=
+  if k * indexEntrySize + indexEntrySize ≤ idx.length then decodeIndexEntry crc (slice idx (k * indexEntrySize) indexEntrySize) else {}
+
+/-- batch k of the file with index entry k -/
+def pairIdx (crc : Bytes → Nat) (idx : Bytes) : Nat → List Batch → List (Batch × IdxMeta)
+  | _, [] => []
+  | k, b :: r => (b, metaAt crc idx k) :: pairIdx crc idx (k + 1) r
+
+/-- `raws` are complete valid batches decoding to `bs` -/
+inductive AllOK (crc : Bytes → Nat) : List Bytes → List Batch → Prop
+  | nil : AllOK crc [] []
+  | cons {raw b raws bs} : BatchOK crc raw b → AllOK crc raws bs → AllOK crc (raw :: raws) (b :: bs)
+
+theorem slice_append_left (a b : Bytes) (lo n : Nat) (h : lo + n ≤ a.length) : slice (a ++ b) lo n = slice a lo n := by
+  unfold slice
+  rw [List.drop_append_of_le_length (by omega), List.take_append_of_le_length (by simp [List.length_drop]; omega)]
+
+theorem slice_take (a : Bytes) (lo n m : Nat) (h : lo + n ≤ m) : slice (a.take m) lo n = slice a lo n := by
+  unfold slice
+  rw [List.drop_take, List.take_take]
+  congr 1
+  omega
+
+theorem seg_step (crc : Bytes → Nat) (idx : Bytes) (raw : Bytes) (b : Batch) (h : BatchOK crc raw b) (fuel : Nat) (rest : Bytes) (k : Nat) :
+    loadSegmentAux crc idx (fuel + 1) (raw ++ rest) k = (b, metaAt crc idx k) :: loadSegmentAux crc idx fuel rest (k + 1) := by
+  obtain ⟨hl, hb, hd⟩ := h
+  have h12 : 8 + 4 ≤ raw.length := by omega
+  have hs : slice (raw ++ rest) 8 4 = slice raw 8 4 := slice_append_left raw rest 8 4 h12
+  have ht : (raw ++ rest).take (12 + beNat (slice raw 8 4)) = raw := by rw [← hl, List.take_left']; rfl
+  have hdr : (raw ++ rest).drop (12 + beNat (slice raw 8 4)) = rest := by rw [← hl, List.drop_left']; rfl
+  rw [loadSegmentAux]
+  simp only [hs, ht, hdr, hd, metaAt]
+  have a1 : ¬ ((raw ++ rest).length < 12) := by simp [List.length_append]; omega
+  have a2 : ¬ (beNat (slice raw 8 4) > 1073741824) := by omega
+  have a3 : ¬ (12 + beNat (slice raw 8 4) > (raw ++ rest).length) := by simp [List.length_append]; omega
+  simp only [List.length_append] at a1 a3
+  simp [a2]
+  rw [if_neg (by omega), if_neg (by omega)]
+
+theorem seg_torn (crc : Bytes → Nat) (idx : Bytes) (raw : Bytes) (b : Batch) (h : BatchOK crc raw b) (n : Nat) (hn : n < raw.length)
+    (fuel k : Nat) : loadSegmentAux crc idx fuel (raw.take n) k = [] := by
+  obtain ⟨hl, hb, hd⟩ := h
+  cases fuel with
+  | zero => rfl
+  | succ f =>
+    rw [loadSegmentAux]
+    have hlen : (raw.take n).length = n := by rw [List.length_take]; omega
+    by_cases c : n < 12
+    · simp [hlen, c]
+    · have hs : slice (raw.take n) 8 4 = slice raw 8 4 := slice_take raw 8 4 n (by omega)
+      have a3 : 12 + beNat (slice raw 8 4) > n := by omega
+      simp [hlen, c, hs, a3]
+
+theorem seg_load (crc : Bytes → Nat) (idx : Bytes) (raws : List Bytes) (bs : List Batch) (h : AllOK crc raws bs)
+    (raw0 : Bytes) (b0 : Batch) (h0 : BatchOK crc raw0 b0) (n : Nat) (hn : n < raw0.length) :
+    ∀ (fuel k : Nat), raws.length ≤ fuel →
+      loadSegmentAux crc idx fuel (raws.flatten ++ raw0.take n) k = pairIdx crc idx k bs := by
+  induction h with
+  | nil => intro fuel k _; simpa [pairIdx] using seg_torn crc idx raw0 b0 h0 n hn fuel k
+  | cons hx _ ih =>
+    intro fuel k hf
+    cases fuel with
+    | zero => simp at hf
+    | succ f =>
+      simp only [List.flatten_cons, List.append_assoc]
+      rw [seg_step crc idx _ _ hx, ih f (k + 1) (by simpa using hf)]
+      rfl
+
+theorem flatten_length_ge (crc : Bytes → Nat) (raws : List Bytes) (bs : List Batch) (h : AllOK crc raws bs) :
+    raws.length ≤ raws.flatten.length := by
+  induction h with
+  | nil => simp
+  | cons hx _ ih => simp only [List.flatten_cons, List.length_append, List.length_cons]; have := hx.1; omega
+
+
 end Proof.C33
